@@ -1,19 +1,28 @@
-"""C01 — HTTP/1.x request framing: request-head parser and chunked body decoder."""
+"""C01 — HTTP/1.x request framing: request-head parser, chunked body decoder, connection automaton."""
 import itertools
 from .. import common as C
 
 MANIFEST = dict(
     text="Lean 4 theorems over executable models of the HTTP/1.x request-head parser (request.c, "
-         "http_header_parse_hoff, h1_recv_headers limits) and of the chunked request-body decoder "
-         "(h1_chunked) as a byte automaton: ambiguous/invalid framing is rejected for every input and "
-         "option set, accepted heads have exactly one RFC 9112 framing, chunked round-trip, segmentation "
-         "independence; models tied to the C by differential runs (grammar-based requests, every "
-         "single-byte corruption, all segmentations of short chunked bodies) under ASan/UBSan",
-    note="trusted: Lean kernel, hand-written models validated by h_request / h_h1body correspondence, "
-         "method/header tables regenerated from http_kv.c/http_header.c; IPv6-literal host "
-         "normalisation (inet_pton) is skipped, not modelled; connection-level pipelining is covered by "
-         "the end-to-end stream only",
-    tech="Lean 4 proof over hand-written model + differential correspondence (in-process C harness)",
+         "http_header_parse_hoff, h1_recv_headers limits), of the chunked request-body decoder "
+         "(h1_chunked) and of the whole connection (head accumulation with blank-line discard, "
+         "Content-Length counter, chunked decoder, keep-alive decision, close after rejection) as "
+         "byte-at-a-time automata: ambiguous/invalid framing is rejected for every input and option set, "
+         "accepted heads have exactly one RFC 9112 framing, chunked round-trip, no request smuggling on "
+         "pipelines (n well-formed messages give exactly n requests with exactly their bodies), a "
+         "rejection is followed by close and nothing else, one response per request, independence from "
+         "TCP segmentation; models tied to the C by differential runs (grammar-based requests, every "
+         "single-byte corruption, all segmentations of short chunked bodies) under ASan/UBSan and by an "
+         "end-to-end correspondence against the real sanitized server (echoing CGI + static files, "
+         "request pipelines under many segmentations and configurations) with an independent RFC 9112 "
+         "reference framer as oracle",
+    note="trusted: Lean kernel, hand-written models validated by h_request / h_h1body correspondence and "
+         "the e2e pipeline stream, method/header tables regenerated from http_kv.c/http_header.c; "
+         "IPv6-literal host normalisation (inet_pton) is skipped, not modelled; the request handler is "
+         "a parameter of the connection model (status, reads-body, forces-close); TLS, h2c upgrade and "
+         "timeouts are outside",
+    tech="Lean 4 proof over hand-written model + differential correspondence (in-process C harness + "
+         "end-to-end against the real server)",
     ref="6/C01")
 
 HS, HOSTS, HOSTN, UN, UU, UR, CR_, F2D, F2R, DSR, DSJ, Q20, U8R, GB = \
@@ -343,6 +352,856 @@ def gen_chunked(ctx):
     return lines
 
 
+
+# ====================================================================== connection level (end-to-end)
+# Pipelines of requests on one connection against the REAL server (echoing CGI + static files), sent under
+# many TCP segmentations, compared with the Lean connection automaton (Model/H1Conn.lean, `conn` op) and
+# checked by an independent RFC 9112 reference framer (oracle).
+import os, re, select, socket, time, collections
+from concurrent.futures import ThreadPoolExecutor
+
+ECHO_PL = r"""#!/usr/bin/perl
+binmode(STDIN); binmode(STDOUT);
+my $cl = $ENV{"CONTENT_LENGTH"}; my $n = (defined($cl) && $cl =~ /^\d+$/) ? $cl : 0;
+my $b = ""; my $got = 0;
+while ($got < $n) { my $r = read(STDIN, $b, $n - $got, $got); last if !$r; $got += $r; }
+print "Content-Type: application/octet-stream\r\n\r\n";
+print "M=" . $ENV{"REQUEST_METHOD"} . "\nCL=" . (defined($cl) ? $cl : "-") . "\nB=" . $b;
+"""
+STATIC = {"/index.html": b"<html>index</html>\n", "/a.txt": b"aaaa\n"}
+SENTINEL = b"GET /a.txt HTTP/1.1\r\nHost: sentinel\r\nConnection: close\r\n\r\n"
+
+CONN_CONF = """
+server.feature-flags = ("server.h2proto" => "disable")
+server.max-keep-alive-idle = %(kaidle)d
+server.max-read-idle = 30
+server.max-write-idle = 30
+cgi.assign = (".pl" => "/usr/bin/perl")
+server.stream-request-body = %(stream)d
+server.max-keep-alive-requests = %(maxka)d
+server.max-request-size = %(maxsize)d
+server.max-request-field-size = %(maxfield)d
+%(popts)s
+"""
+
+
+def parseopt_bits(d):
+    """effective r->conf.http_parseopts for a server.http-parseopts table: mirrors config_http_parseopts()
+    and the defaults of config_init() (configfile.c)"""
+    names = {"url-normalize": UN, "url-normalize-unreserved": UU, "url-normalize-required": UR,
+             "url-ctrls-reject": CR_, "url-path-backslash-trans": 0x80, "url-path-2f-decode": F2D,
+             "url-path-2f-reject": F2R, "url-path-dotseg-remove": DSR, "url-path-dotseg-reject": DSJ,
+             "url-query-20-plus": Q20, "url-invalid-utf8-reject": U8R}
+    hs, hosts, hostn, gb = 1, 1, 0, 0
+    opts = UN | UU | CR_ | F2D | DSR | U8R
+    decode_2f = url_normalize = 1
+    for k, v in d.items():
+        if k == "header-strict":
+            hs = v
+        elif k == "host-strict":
+            hosts = v
+        elif k == "host-normalize":
+            hostn = v
+        elif k == "method-get-body":
+            gb = v
+        else:
+            o = names[k]
+            if v:
+                opts |= o
+            else:
+                opts &= ~o
+                if o == UN:
+                    url_normalize = 0
+                if o == F2D:
+                    decode_2f = 0
+    if not url_normalize:
+        opts = 0
+    if opts:
+        opts |= UN
+        if not (opts & (UU | UR)):
+            opts |= UU | U8R
+            if decode_2f and not (opts & F2R):
+                opts |= F2D
+    return (HS if hs else 0) | ((HOSTS | HOSTN) if hosts else 0) | (HOSTN if hostn else 0) | (GB if gb else 0) | opts
+
+
+def mkconf(name, popts=None, stream=0, maxka=100, maxsize=0, maxfield=8192, kaidle=30):
+    popts = popts or {}
+    txt = ""
+    if popts:
+        txt = "server.http-parseopts = (" + ", ".join(
+            '"%s" => "%s"' % (k, "enable" if v else "disable") for k, v in popts.items()) + ")"
+    return dict(name=name, bits=parseopt_bits(popts), stream=stream, maxka=maxka, maxsize=maxsize,
+                maxfield=maxfield, kaidle=kaidle, strict=bool(popts.get("header-strict", 1)),
+                text=CONN_CONF % dict(stream=stream, maxka=maxka, maxsize=maxsize, maxfield=maxfield, popts=txt,
+                                      kaidle=kaidle))
+
+
+def conn_confs(ctx):
+    cs = [mkconf("default"),
+          mkconf("stream1", stream=1),
+          mkconf("stream2", stream=2),
+          mkconf("lenient", {"header-strict": 0}),
+          mkconf("lenient-all+stream1", {"header-strict": 0, "host-strict": 0, "url-normalize": 0}, stream=1),
+          mkconf("normalize-required+getbody+maxka2",
+                 {"url-normalize-required": 1, "url-ctrls-reject": 0, "url-path-2f-reject": 1, "url-path-2f-decode": 0,
+                  "method-get-body": 1}, maxka=2),
+          mkconf("limits", maxsize=1, maxfield=512)]
+    if not ctx.quick:
+        cs += [mkconf("ctrls-off+stream2", {"url-ctrls-reject": 0}, stream=2),
+               mkconf("hostnorm+dotseg-reject", {"host-strict": 0, "host-normalize": 1, "url-path-dotseg-reject": 1,
+                                                 "url-path-dotseg-remove": 0, "url-query-20-plus": 1}),
+               mkconf("lenient+stream2+maxka1", {"header-strict": 0}, stream=2, maxka=1),
+               mkconf("keep-alive-off", kaidle=0)]
+    return cs
+
+
+# ------------------------------------------------------------------ message grammar
+BODY_ATOMS = [b"a", b"xyz", b"\r\n", b"\n", b"\r", b"\x00", b"0\r\n\r\n", b"GET /a.txt HTTP/1.1\r\nHost: evil\r\n\r\n",
+              b"POST /echo.pl HTTP/1.1\r\nHost: evil\r\nContent-Length: 3\r\n\r\nabc", b"\xff\xfe", b"5\r\nhello\r\n",
+              b"Content-Length: 0\r\n", b" ", b";"]
+SAFE_FIELDS = [(b"Accept", b"*/*"), (b"User-Agent", b"x/1.0"), (b"Cookie", b"a=1"), (b"X-Foo", b"a b"),
+               (b"If-None-Match", b"\"zzz\""), (b"Content-Type", b"a/b"), (b"Accept-Encoding", b"gzip"),
+               (b"X-Forwarded-For", b"1.2.3.4"), (b"Connection", b"keep-alive"), (b"Connection", b"Keep-Alive, foo")]
+
+
+def rand_body(rng, big):
+    r = rng.random()
+    if r < 0.1:
+        return b""
+    if big and r < 0.16:
+        n = rng.choice([5000, 17000, 66000, 70000])
+        return bytes(rng.getrandbits(8) for _ in range(64)) * (n // 64)
+    out = b""
+    for _ in range(rng.randint(1, 6)):
+        out += rng.choice(BODY_ATOMS)
+    if rng.random() < 0.3:
+        out += bytes(rng.getrandbits(8) for _ in range(rng.randint(1, 200)))
+    return out
+
+
+def enchunk(rng, body, ok=True):
+    out = b""
+    i = 0
+    while i < len(body):
+        n = min(len(body) - i, rng.choice([1, 2, 3, 5, 16, 17, 100, 1000]))
+        size = (b"%x" % n) if rng.random() < 0.7 else (b"%X" % n if rng.random() < 0.5 else b"0" * rng.randint(1, 3) + b"%x" % n)
+        ext = rng.choice([b"", b"", b"", b";a=b", b" ;x", b"\t", b";"])
+        out += size + ext + b"\r\n" + body[i:i + n] + b"\r\n"
+        i += n
+    out += rng.choice([b"0", b"0", b"00", b"0;x"]) + b"\r\n"
+    out += rng.choice([b"", b"", b"", b"Foo: bar\r\n", b"A: b\r\nC: d\r\n"]) + b"\r\n"
+    return out
+
+
+def conn_message(rng, big=False):
+    """a well-formed message: (bytes, description)"""
+    kind = rng.choice(["get-static", "get-static", "get-404", "head", "get-cgi", "post-cl", "post-cl", "post-cl",
+                       "post-ck", "post-ck", "put-cl", "post-static", "post-static0", "options", "delete"])
+    v10 = rng.random() < 0.15
+    ver = b"HTTP/1.0" if v10 else b"HTTP/1.1"
+    fl = []
+    if not v10 or rng.random() < 0.5:
+        fl.append((rng.choice([b"Host", b"host", b"HOST"]), rng.choice([b"example.org", b"a.b:8080", b"127.0.0.1"])))
+    if v10 and rng.random() < 0.75:
+        fl.append((b"Connection", b"keep-alive"))
+    elif rng.random() < 0.04:
+        fl.append((b"Connection", b"close"))
+    for _ in range(rng.randint(0, 3)):
+        fl.append(rng.choice(SAFE_FIELDS))
+    body = b""
+    cgi_t = rng.choice([b"/echo.pl", b"/echo.pl", b"/echo.pl?x=1&y=2", b"/./echo.pl", b"/echo.pl/info"])
+    st_t = rng.choice([b"/index.html", b"/a.txt", b"/a.txt?q", b"/dir/../a.txt", b"//index.html"])
+    if kind == "get-static":
+        m, t = b"GET", st_t
+    elif kind == "get-404":
+        m, t = b"GET", rng.choice([b"/nope", b"/nope/x?y", b"/index.htm"])
+    elif kind == "head":
+        m, t = b"HEAD", rng.choice([st_t, b"/nope", cgi_t])
+    elif kind == "get-cgi":
+        m, t = b"GET", cgi_t
+    elif kind == "options":
+        m, t = b"OPTIONS", rng.choice([b"*", st_t])
+    elif kind == "delete":
+        m, t = rng.choice([b"DELETE", b"PROPFIND", b"PUT"]), rng.choice([st_t, b"/nope"])
+    elif kind in ("post-cl", "put-cl", "post-static", "post-static0"):
+        m = b"PUT" if kind == "put-cl" else b"POST"
+        t = st_t if kind.startswith("post-static") else cgi_t
+        body = b"" if kind == "post-static0" else rand_body(rng, big)
+        if kind == "post-static" and not body:
+            body = b"x"
+        fl.append((rng.choice([b"Content-Length", b"content-length"]), b"%d" % len(body)))
+    else:
+        m, t = b"POST", cgi_t
+        raw = rand_body(rng, False)[:3000]
+        if v10:
+            ver = b"HTTP/1.1"
+            if not any(k.lower() == b"host" for k, _ in fl):
+                fl.append((b"Host", b"example.org"))
+        fl.append((rng.choice([b"Transfer-Encoding", b"transfer-encoding"]), rng.choice([b"chunked", b"Chunked", b"CHUNKED"])))
+        body = enchunk(rng, raw)
+    rng.shuffle(fl)
+    head = m + b" " + t + b" " + ver + b"\r\n"
+    for k, val in fl:
+        head += k + rng.choice([b": ", b": ", b":", b":\t "]) + val + b"\r\n"
+    head += b"\r\n"
+    return head, body, kind
+
+
+def break_message(rng, head, body, kind):
+    """turn a well-formed message into one of the ambiguous / invalid class"""
+    lines = head.split(b"\r\n")[:-2]
+    how = rng.choice(["dup-cl", "dup-cl-same", "cl-nonnum", "te-other", "te-10", "te-cl", "ctl-target", "ctl-value",
+                      "ws-colon", "bare-lf", "nul", "no-host", "bad-chunk", "corrupt", "grammar", "cl-short"])
+    if how in ("dup-cl", "dup-cl-same"):
+        n = len(body)
+        lines.insert(rng.randint(1, len(lines)), b"Content-Length: %d" % (n if how == "dup-cl-same" else n + 1))
+        if not any(l.lower().startswith(b"content-length") for l in lines[1:-1] + lines[-1:]) or kind.startswith("get"):
+            lines.insert(1, b"Content-Length: %d" % n)
+    elif how == "cl-nonnum":
+        lines = [l for l in lines if not l.lower().startswith((b"content-length", b"transfer-encoding"))]
+        # (not the largest valid value: a CGI told to expect 2^63-1 bytes misbehaves in timing-dependent ways)
+        lines.append(b"Content-Length: " + rng.choice([v for v in CLV[4:] if v != b"9223372036854775807"]))
+    elif how == "te-other":
+        lines = [l for l in lines if not l.lower().startswith((b"content-length", b"transfer-encoding"))]
+        lines.append(b"Transfer-Encoding: " + rng.choice(TEV[4:7] + TEV[8:]))
+    elif how == "te-10":
+        lines[0] = lines[0][:-1] + b"0"
+        lines = [l for l in lines if not l.lower().startswith((b"content-length", b"transfer-encoding"))]
+        lines.append(b"Transfer-Encoding: chunked")
+        body = b"3\r\nabc\r\n0\r\n\r\n"
+    elif how == "te-cl":
+        lines = [l for l in lines if not l.lower().startswith((b"content-length", b"transfer-encoding"))]
+        body = enchunk(rng, b"abc")
+        two = [b"Transfer-Encoding: chunked", b"Content-Length: %d" % rng.choice([0, 3, len(body)])]
+        rng.shuffle(two)
+        lines += two
+        lines[0] = lines[0][:-1] + b"1"
+        if not any(l.lower().startswith(b"host") for l in lines):
+            lines.append(b"Host: a")
+    elif how == "ctl-target":
+        p = lines[0].split(b" ")
+        i = rng.randrange(1, len(p[1]) + 1)
+        p[1] = p[1][:i] + bytes([rng.choice([1, 8, 9, 11, 12, 13, 27, 31, 127, 0])]) + p[1][i:]
+        lines[0] = b" ".join(p)
+    elif how == "ctl-value":
+        lines.insert(rng.randint(1, len(lines)), b"X-Bar: a" + bytes([rng.choice([1, 8, 11, 12, 13, 27, 31, 127, 0])]) + b"b")
+    elif how == "ws-colon":
+        i = rng.randrange(1, len(lines)) if len(lines) > 1 else None
+        if i is None:
+            lines.append(b"X-Bar : a")
+        else:
+            k, v = lines[i].split(b":", 1)
+            lines[i] = k + rng.choice([b" ", b"\t"]) + b":" + v
+    elif how == "bare-lf":
+        i = rng.randrange(len(lines))
+        out = b""
+        for j, l in enumerate(lines):
+            out += l + (b"\n" if j == i else b"\r\n")
+        return out + b"\r\n", body, how
+    elif how == "nul":
+        blk = b"\r\n".join(lines) + b"\r\n\r\n"
+        i = rng.randrange(len(blk))
+        blk = blk[:i] + b"\x00" + (blk[i:] if rng.random() < 0.5 else blk[i + 1:])
+        return blk, body, how
+    elif how == "no-host":
+        lines = [l for l in lines if not l.lower().startswith(b"host")]
+        lines[0] = lines[0][:-1] + b"1"
+    elif how == "bad-chunk":
+        lines = [l for l in lines if not l.lower().startswith((b"content-length", b"transfer-encoding"))]
+        lines.append(b"Transfer-Encoding: chunked")
+        lines[0] = b"POST /echo.pl HTTP/1.1"
+        if not any(l.lower().startswith(b"host") for l in lines):
+            lines.append(b"Host: a")
+        body = chunk_stream(rng, False)
+    elif how == "corrupt":
+        blk = b"\r\n".join(lines) + b"\r\n\r\n" + body
+        blk = corrupt1(blk, rng.randrange(len(blk)), rng.choice(CORRUPT + [rng.randint(0, 255)]), rng.randint(0, 2))
+        return blk, b"", how
+    elif how == "grammar":
+        return build(rng, 0.0), rng.choice([b"", b"abc"]), how
+    elif how == "cl-short":
+        # declared length shorter than what is sent: the rest is (mis)read as the next request -- legal framing,
+        # the "next request" is garbage
+        body = body + b"XYZ" if body else b"XYZ"
+        lines = [l for l in lines if not l.lower().startswith((b"content-length", b"transfer-encoding"))]
+        lines.append(b"Content-Length: %d" % (len(body) - 3))
+        lines[0] = b"POST /echo.pl HTTP/1.1"
+        if not any(l.lower().startswith(b"host") for l in lines):
+            lines.append(b"Host: a")
+    return b"\r\n".join(lines) + b"\r\n\r\n", body, how
+
+
+def conn_pipeline(rng, big=False):
+    """(stream bytes incl. sentinel, list of (offset, kind) marks)"""
+    n = rng.choice([1, 2, 2, 3, 3, 4, 5, 6])
+    out, marks = b"", []
+    bad_at = rng.randrange(n) if rng.random() < 0.45 else -1
+    for i in range(n):
+        head, body, kind = conn_message(rng, big)
+        if i == bad_at or (bad_at >= 0 and i > bad_at and rng.random() < 0.2):
+            head, body, kind = break_message(rng, head, body, kind)
+        if i and rng.random() < 0.15:
+            marks.append((len(out), "blank"))
+            out += rng.choice([b"\r\n", b"\r\n", b"\r\n", b"\n", b"\r\n\r\n"])
+        marks.append((len(out), kind))
+        out += head
+        marks.append((len(out), "body"))
+        out += body
+    marks.append((len(out), "sentinel"))
+    return out + SENTINEL, marks
+
+
+def cut(data, points):
+    pts = sorted(set(p for p in points if 0 < p < len(data)))
+    return [data[a:b] for a, b in zip([0] + pts, pts + [len(data)])]
+
+
+def segmentations(rng, data, marks, quick):
+    """list of (kind, segments, gap seconds)"""
+    n = len(data)
+    out = [("one", [data], 0.0)]
+    crlf = [i + 1 for i in range(n - 1) if data[i] == 13 and data[i + 1] == 10]
+    if n <= 700:
+        out.append(("bytewise", [data[i:i + 1] for i in range(n)], 0.0006))
+    k = rng.randint(1, 8)
+    out.append(("random", cut(data, [rng.randrange(1, n) for _ in range(k)]), 0.003))
+    if crlf:
+        pts = crlf if len(crlf) <= 40 else rng.sample(crlf, 40)
+        out.append(("crlf", cut(data, pts), 0.003))
+    mk = [o for o, _ in marks]
+    pts = []
+    for o in mk:
+        pts += [o + d for d in (-2, -1, 0, 1, 2) if rng.random() < 0.5]
+    # inside chunk-size lines / right after them
+    for m in re.finditer(rb"\r\n[0-9a-fA-F]{1,4}[;\t ]?[^\r\n]{0,6}\r\n", data):
+        if rng.random() < 0.5:
+            pts.append(m.start() + 2 + rng.randint(0, m.end() - m.start() - 2))
+    if pts:
+        out.append(("marks", cut(data, pts), 0.003))
+    if not quick:
+        out.append(("random2", cut(data, [rng.randrange(1, n) for _ in range(rng.randint(2, 20))]), 0.001))
+    return out
+
+
+# ------------------------------------------------------------------ reference framer (oracle side)
+def ref_head(data, i, strict, first):
+    """independent RFC 9112 reading of one request head starting at data[i:].
+    returns dict(kind=ok|reject|incomplete|other, why, method, version, framing, cl, end)"""
+    # one empty line before a request-line is skipped (RFC 9112 2.2), not on the first request
+    if not first and data[i:i + 2] == b"\r\n":
+        i += 2
+    elif not first and data[i:i + 1] == b"\n":
+        i += 1
+    if i >= len(data):
+        return dict(kind="incomplete")
+    j = i
+    lines = []
+    while True:
+        k = data.find(b"\n", j)
+        if k < 0:
+            return dict(kind="incomplete")
+        ln = data[j:k + 1]
+        j = k + 1
+        if ln in (b"\n", b"\r\n"):
+            break
+        lines.append(ln)
+    end = j
+    if not lines:
+        return dict(kind="other", why="empty line where a request line is expected")
+    block = data[i:end]
+    if b"\x00" in block:
+        return dict(kind="reject", why="NUL byte in the request line / header section")
+    bare_lf = any(not l.endswith(b"\r\n") for l in lines)
+    rl = lines[0].rstrip(b"\r\n")
+    parts = rl.split(b" ")
+    if len(parts) != 3 or parts[2] not in (b"HTTP/1.0", b"HTTP/1.1") or not parts[0] or not parts[1]:
+        return dict(kind="other", why="request line not of the form method SP target SP HTTP/1.x")
+    method, target, version = parts
+    v11 = version == b"HTTP/1.1"
+    why = None
+    if strict and bare_lf:
+        why = "bare LF line end (strict mode)"
+    if strict and (target[:1] == b"/" or target == b"*") and any(c < 32 or c == 127 for c in target):
+        why = why or "control character in the request-target (strict mode)"
+    # unfold
+    fields = []
+    for l in lines[1:]:
+        body = l.rstrip(b"\n")
+        if body.endswith(b"\r"):
+            body = body[:-1]
+        if l[:1] in (b" ", b"\t"):
+            if not fields:
+                return dict(kind="other", why="continuation line without a field")
+            fields[-1][1] += b" " + body.strip(b" \t")
+            fields[-1][2] = True
+            continue
+        if b":" not in body:
+            return dict(kind="other", why="field line without colon")
+        k, v = body.split(b":", 1)
+        fields.append([k, v.strip(b" \t"), False])
+    for k, v, folded in fields:
+        if strict and k[-1:] in (b" ", b"\t"):
+            why = why or "whitespace before the field colon (strict mode)"
+        if strict and any((c < 32 and c != 9) or c == 127 for c in v):
+            why = why or "control character in a field value (strict mode)"
+    name = lambda k: k.strip(b" \t").lower()
+    cl = [(v, f) for k, v, f in fields if name(k) == b"content-length"]
+    te = [(v, f) for k, v, f in fields if name(k) == b"transfer-encoding"]
+    host = [v for k, v, f in fields if name(k) == b"host"]
+    if any(f for _, f in cl + te):
+        return dict(kind="other", why="folded framing field")
+    if len(cl) >= 2:
+        why = why or "repeated Content-Length"
+    elif cl and (not re.fullmatch(rb"[0-9]+", cl[0][0]) or int(cl[0][0]) > 2 ** 63 - 1):
+        why = why or "non-numeric / overflowing Content-Length"
+    te_vals = [v for v, _ in te if v]
+    if len(te) != len(te_vals) or len(te_vals) > 1:
+        if not why:
+            return dict(kind="other", why="empty or repeated Transfer-Encoding field")
+    if te_vals and te_vals[0].lower() != b"chunked":
+        why = why or "Transfer-Encoding other than chunked"
+    if te_vals and not v11:
+        why = why or "Transfer-Encoding on HTTP/1.0"
+    if te_vals and cl and strict:
+        why = why or "Content-Length together with Transfer-Encoding (strict mode)"
+    if v11 and not host and not re.match(rb"(?i)https?://", target):
+        why = why or "HTTP/1.1 request without Host"
+    if why:
+        return dict(kind="reject", why=why)
+    framing = "chunked" if te_vals else ("cl" if cl and int(cl[0][0]) > 0 else "none")
+    return dict(kind="ok", method=method, version=version, framing=framing, cl=int(cl[0][0]) if cl else 0,
+                te_cl=bool(te_vals and cl), end=end)
+
+
+def ref_frame(data, strict):
+    """split the client stream into messages the RFC way; stops at the first message that is not well-formed.
+    returns (messages, stop, why) with stop in (None, 'reject', 'incomplete-head', 'incomplete-body', 'other')"""
+    msgs, i, first = [], 0, True
+    while i < len(data):
+        h = ref_head(data, i, strict, first)
+        if h["kind"] != "ok":
+            return msgs, ("incomplete-head" if h["kind"] == "incomplete" else h["kind"]), h.get("why", "")
+        j = h["end"]
+        if h["framing"] == "cl":
+            if len(data) < j + h["cl"]:
+                return msgs, "incomplete-body", h["method"]
+            body = data[j:j + h["cl"]]
+            j += h["cl"]
+        elif h["framing"] == "chunked":
+            r = dechunk_ref(data[j:], 0)
+            if r[0] == "bad":
+                return msgs, "reject", "malformed chunk framing"
+            if r[0] == "more":
+                return msgs, "incomplete-body", h["method"]
+            body = r[1]
+            j += r[2]
+        else:
+            body = b""
+        h["body"] = body
+        h["stop"] = j
+        msgs.append(h)
+        i = j
+        first = False
+    return msgs, None, ""
+
+
+REJECT_STATUSES = (400, 411, 413, 431, 505)
+
+
+def conn_oracle(conf, data, obs):
+    """independent statement of the property on what the server did on one connection.
+    obs = dict(resps=[(status, echo|None)], closed=bool, error=str|None)"""
+    if obs.get("error"):
+        return obs["error"]
+    resps = obs["resps"]
+    msgs, stop, why = ref_frame(data, conf["strict"])
+    n_ok = len(msgs)
+    if stop != "other":
+        # a message whose body has not arrived completely may be answered early -- then the connection must close
+        limit = n_ok + (1 if stop in ("reject", "incomplete-body") else 0)
+        if len(resps) > limit:
+            return "more responses (%d) than messages sent (%d)" % (len(resps), limit)
+        if stop == "incomplete-body" and len(resps) == limit and not obs["closed"]:
+            return "connection kept open after answering a request whose body was not received completely"
+    for i, (status, echo) in enumerate(resps):
+        if echo is not None and i < n_ok:
+            m = msgs[i]
+            if echo["M"] != m["method"]:
+                return "response %d echoes method %r, message %d is %r" % (i, echo["M"], i, m["method"])
+            if echo["B"] != m["body"]:
+                return "request body not delivered byte-identically (message %d: %d bytes sent, %d echoed)" % (
+                    i, len(m["body"]), len(echo["B"]))
+            if echo["CL"] != b"%d" % len(m["body"]):
+                return "CONTENT_LENGTH %r differs from the body length %d of message %d" % (echo["CL"], len(m["body"]), i)
+        if echo is not None and i == n_ok and stop == "reject":
+            return "message in the rejected class was accepted and handled (%s)" % why
+        if i < n_ok and msgs[i].get("te_cl") and status < 400 and (i != len(resps) - 1 or not obs["closed"]):
+            return "connection kept open after a request with both Content-Length and Transfer-Encoding"
+        if status in REJECT_STATUSES and (i != len(resps) - 1 or not obs["closed"]):
+            return "connection not closed after a %d rejection (response %d of %d)" % (status, i + 1, len(resps))
+    if stop == "reject" and len(resps) == n_ok + 1:
+        status = resps[-1][0]
+        if not 400 <= status < 600:
+            return "message in the rejected class answered with %d (%s)" % (status, why)
+        if not obs["closed"]:
+            return "connection not closed after rejecting a message (%s)" % why
+    return None
+
+
+# ------------------------------------------------------------------ client
+def conn_exchange(port, segs, gap, expect_open, expect_n, head_flags, timeout=24.0):
+    """send the segments, read to EOF.  When the model expects the server to keep waiting for input
+    (expect_open), half-close once the expected number of final responses has arrived."""
+    from .. import e2e
+    s = socket.create_connection(("127.0.0.1", port), timeout=5)
+    s.setsockopt(socket.IPPROTO_TCP, socket.TCP_NODELAY, 1)
+    buf, closed, err = b"", False, None
+    try:
+        for seg in segs:
+            try:
+                s.sendall(seg)
+            except OSError:
+                break
+            if gap:
+                time.sleep(gap)
+        end = time.time() + timeout
+        shut = False
+        while True:
+            if expect_open and not shut:
+                try:
+                    done = sum(1 for r in e2e.parse_responses(buf, head_for=head_flags, closed=False)
+                               if r["status"] >= 200 or r["status"] == 101) >= expect_n
+                except e2e.RespParseError:
+                    done = False
+                if done or time.time() > end - timeout / 2:
+                    try:
+                        s.shutdown(socket.SHUT_WR)
+                    except OSError:
+                        pass
+                    shut = True
+            r, _, _ = select.select([s], [], [], 0.05 if (expect_open and not shut) else max(0.0, end - time.time()))
+            if not r:
+                if time.time() > end:
+                    break
+                continue
+            try:
+                d = s.recv(262144)
+            except OSError:
+                closed = True
+                break
+            if not d:
+                closed = True
+                break
+            buf += d
+    finally:
+        s.close()
+    return buf, closed
+
+
+def head_flags_of(data, strict):
+    """which responses answer a HEAD request (no body), per the reference framer; the message the framer stops at
+    is undecided (the server may fail before or after it has read the method): (flags, undecided index | None)"""
+    msgs, stop, _ = ref_frame(data, strict)
+    flags = [m["method"] == b"HEAD" for m in msgs]
+    und = None
+    if stop in ("reject", "other", "incomplete-body"):
+        i = msgs[-1]["stop"] if msgs else 0
+        while data[i:i + 1] in (b"\r", b"\n"):
+            i += 1
+        if data[i:i + 5] == b"HEAD ":
+            und = len(flags)
+    return flags, und
+
+
+def observe(data, closed, head_flags):
+    from .. import e2e
+    flags, und = head_flags
+    rs, err = None, None
+    # a rejection issued before the method was read (431, 400 on the request line) carries a body even if the
+    # request was HEAD: such a response is the last one, so try un-flagging one HEAD at a time
+    cands = [flags + [False]] + ([flags + [True]] if und is not None else []) + \
+        [flags[:i] + [False] * (len(flags) - i + 1) for i, f in enumerate(flags) if f]
+    for fl in cands:
+        try:
+            rs = e2e.parse_responses(data, head_for=fl, closed=closed)
+            break
+        except e2e.RespParseError as ex:
+            err = err or ex
+    if rs is None:
+        return dict(resps=[], closed=closed, error="response stream is not well-formed HTTP/1.x: %s" % err)
+    out = []
+    for r in rs:
+        if r["status"] < 200 and r["status"] != 101:
+            continue
+        echo = None
+        b = r["body"]
+        m = re.match(rb"M=([^\n]*)\nCL=([^\n]*)\nB=", b) if r["status"] == 200 else None
+        if m:
+            echo = {"M": m.group(1), "CL": m.group(2), "B": b[m.end():]}
+        out.append((r["status"], echo))
+    return dict(resps=out, closed=closed, error=None)
+
+
+def static_status(method, path):
+    """status of a request that is not handled by the CGI, for the paths the generator uses (None: not compared)"""
+    if method == b"OPTIONS" and path == b"*":
+        return 200
+    if path in (b"/index.html", b"/a.txt"):
+        return 200 if method in (b"GET", b"HEAD", b"POST", b"OPTIONS") else 501
+    if path.startswith(b"/nope") or path == b"/index.htm":
+        return 404
+    return None
+
+
+def model_expect(mo):
+    """model output line -> (items, final phase); item = dict(kind=req|rej, ...)"""
+    items, phase = [], "?"
+    skip = False
+    for tok in mo.split(" "):
+        if tok.startswith("end:"):
+            phase = tok.split(":")[1]
+            continue
+        body, _, idx = tok.rpartition("@")
+        a = body.split(":")
+        if a[0] == "req":
+            items.append(dict(kind="req", status=int(a[1]), method=C.unhx(a[2]), path=C.unhx(a[3]),
+                              framing=a[4], body=C.unhx(a[5]), at=int(idx)))
+        elif a[0] == "rej":
+            alt = [int(x[3:]) for x in a[2:] if x.startswith("alt")]
+            items.append(dict(kind="rej", status=int(a[1]), alt=alt[0] if alt else None, ck="ck" in a[2:], at=int(idx)))
+        elif a[0] == "skip":
+            skip = True
+    return items, phase, skip
+
+
+def conn_compare(conf, items, phase, obs):
+    """None if the server's behaviour equals the model's prediction (within the documented tolerances)"""
+    resps = obs["resps"]
+    exp_closed = phase == "closed"
+    for i, it in enumerate(items):
+        if i >= len(resps):
+            return "response %d missing (model: %s)" % (i, it["kind"] + str(it["status"]))
+        status, echo = resps[i]
+        if it["kind"] == "rej":
+            if conf["stream"] and it["ck"] and status == 411 and i == len(resps) - 1 and obs["closed"]:
+                return None            # documented: 411 from mod_cgi before the chunk error is reached
+            if status != it["status"] and status != it.get("alt"):
+                return "response %d: status %d, model rejects with %d" % (i, status, it["status"])
+            continue
+        if it["status"] == 200:        # echoing CGI
+            if conf["stream"] and it["framing"] == "ck" and status == 411 and i == len(resps) - 1 and obs["closed"]:
+                return None            # documented: mod_cgi answers 411 to a chunked body it would have to stream
+            if it["method"] == b"HEAD":
+                if status != 200 or echo is not None:
+                    return "response %d: status %d, model: HEAD handled by the CGI" % (i, status)
+                continue
+            if echo is None:
+                return "response %d: status %d without echo, model: request handled by the CGI" % (i, status)
+            if echo["M"] != it["method"] or echo["B"] != it["body"] or echo["CL"] != b"%d" % len(it["body"]):
+                return "response %d: echoed method/body/CONTENT_LENGTH differ from the model's request" % i
+        else:
+            if echo is not None:
+                return "response %d is a CGI echo, model: not a CGI request" % i
+            want = it["status"] if it["status"] else static_status(it["method"], it["path"])
+            if want is not None and status != want:
+                return "response %d: status %d, expected %d" % (i, status, want)
+    if len(resps) > len(items):
+        return "%d responses, model predicts %d" % (len(resps), len(items))
+    if obs["closed"] != True:
+        return "server did not close the connection (model final state: %s)" % phase
+    return None
+
+
+def lone_cr_cut(data, segs, items):
+    """a segment boundary falls between the CR and the LF of an empty line that directly follows a message the
+    model answers (i.e. precedes the next request on a kept-alive connection)"""
+    starts = set(it["at"] + 1 for it in items)
+    o = 0
+    for sg in segs[:-1]:
+        o += len(sg)
+        if data[o - 1:o] == b"\r" and data[o:o + 1] == b"\n" and (o - 1) in starts:
+            return True
+    return False
+
+
+def sig_of(obs):
+    return " ".join(("E" if e else "S") + str(s) for s, e in obs["resps"][:6]) + (" C" if obs["closed"] else " O")
+
+
+def gen_conn(ctx, confs):
+    rng = ctx.rng
+    cases = []           # (conf index, data, marks)
+    n = 420 if ctx.quick else 3000
+    for _ in range(n):
+        ci = rng.randrange(len(confs))
+        data, marks = conn_pipeline(rng, big=not ctx.quick or rng.random() < 0.3)
+        if confs[ci]["maxfield"] < 8192 and rng.random() < 0.5:
+            data = data.replace(b"\r\n\r\n", b"\r\nX-Pad: " + b"p" * rng.choice([300, 440, 470, 480, 500]) + b"\r\n\r\n", 1)
+            marks = [(0, "padded")]
+        cases.append((ci, data, marks))
+    # every single-byte corruption of two base pipelines (one segment each)
+    bases = [b"POST /echo.pl HTTP/1.1\r\nHost: a\r\nContent-Length: 5\r\n\r\nhello"
+             b"POST /echo.pl HTTP/1.1\r\nHost: a\r\nTransfer-Encoding: chunked\r\n\r\n3\r\nabc\r\n0\r\n\r\n",
+             b"GET /index.html HTTP/1.1\r\nHost: a\r\n\r\n\r\nGET /a.txt HTTP/1.0\r\nConnection: keep-alive\r\n\r\n"]
+    sweep = []
+    for bi, base in enumerate(bases):
+        for i in range(len(base)):
+            for b in ([0, 10, 13, 32, 58, 0x61] if ctx.quick else CORRUPT):
+                if base[i] != b:
+                    sweep.append((0 if (i + b) % 3 else 3, corrupt1(base, i, b, 0) + SENTINEL, [(0, "sweep%d" % bi)]))
+            sweep.append((0, corrupt1(base, i, 0, 2) + SENTINEL, [(0, "sweep%d" % bi)]))
+    if ctx.quick:
+        sweep = rng.sample(sweep, 500)
+    return cases, sweep
+
+
+def run_conn(ctx):
+    from .. import e2e
+    t0 = time.time()
+    bd, err = e2e.build_server()
+    if bd is None:
+        ctx.broken.append({"kind": "server-build", "names": ["lighttpd"], "log": err[-3000:]})
+        return
+    confs = conn_confs(ctx)
+    cases, sweep = gen_conn(ctx, confs)
+    jobs = []            # (case index, conf index, seg kind, segs, gap)
+    allc = cases + sweep
+    for k, (ci, data, marks) in enumerate(allc):
+        segl = segmentations(ctx.rng, data, marks, ctx.quick) if k < len(cases) else [("one", [data], 0.0)]
+        for kind, segs, gap in segl:
+            jobs.append((k, ci, kind, segs, gap))
+    # exhaustive small scope: EVERY segmentation of the bytes around two message boundaries
+    # (end of a chunked body | empty line | next request line; head | Content-Length body | next request)
+    ex_n = 0
+    for base, centre in ((b"POST /echo.pl HTTP/1.1\r\nHost: a\r\nTransfer-Encoding: chunked\r\n\r\n3\r\nabc\r\n0\r\n\r\n"
+                          b"\r\nGET /a.txt HTTP/1.1\r\nHost: a\r\n\r\n", b"0\r\n\r\n\r\nGE"),
+                         (b"POST /echo.pl HTTP/1.1\r\nHost: a\r\nContent-Length: 3\r\n\r\nGET"
+                          b"GET /a.txt HTTP/1.1\r\nHost: a\r\n\r\n", b"3\r\n\r\nGETGE"),
+                         (b"GET /index.html HTTP/1.1\r\nHost: a\r\n\r\n"
+                          b"\r\nGET /a.txt HTTP/1.1\r\nHost: a\r\n\r\n", b"a\r\n\r\n\r\nGET")):
+        lo = base.index(centre)
+        width = len(centre) - (3 if ctx.quick else 0)
+        k = len(allc)
+        allc.append((0, base + SENTINEL, [(lo, "window")]))
+        for mask in range(1 << (width + 1)):
+            pts = [lo + i for i in range(width + 1) if mask >> i & 1]
+            jobs.append((k, 0, "exhaustive", cut(base + SENTINEL, pts), 0.004))
+            ex_n += 1
+    ctx.exhaustive = {"e2e-conn": "all 2^k segmentations (k = %d cut points, %d connections) of the bytes around three "
+                                  "message boundaries (chunked body | empty line | request; head | Content-Length body | request; "
+                                  "GET | empty line | request)" % (width + 1, ex_n)}
+    lines = ["conn %d %d %d %d %d %s" % (confs[ci]["bits"], confs[ci]["maxfield"], confs[ci]["maxka"],
+                                         confs[ci]["kaidle"], confs[ci]["maxsize"], C.hx(data)) for ci, data, _ in allc]
+    if not ctx.model_ok:
+        return
+    mo, rc, merr = C.parallel_lines([C.ltmodel_path(), "h1"], lines)
+    if rc != 0 or len(mo) != len(lines):
+        ctx.broken.append({"kind": "model-run", "names": ["h1 conn"], "log": merr[-2000:]})
+        return
+    expects = [model_expect(o) for o in mo]
+    servers = []
+    for cf in confs:
+        srv = e2e.Server(bd, cf["text"], modules=("mod_cgi",))
+        for pth, content in STATIC.items():
+            open(srv.docroot + pth, "wb").write(content)
+        open(srv.docroot + "/echo.pl", "w").write(ECHO_PL)
+        srv.start()
+        servers.append(srv)
+
+    def one(job):
+        k, ci, kind, segs, gap = job
+        data = allc[k][1]
+        items, phase, skip = expects[k]
+        head_flags = head_flags_of(data, confs[ci]["strict"])
+        try:
+            buf, closed = conn_exchange(servers[ci].port, segs, gap, phase != "closed", len(items), head_flags[0])
+        except OSError as ex:
+            return dict(resps=[], closed=False, error="connect/send failed: %s" % ex, connfail=True)
+        return observe(buf, closed, head_flags)
+
+    try:
+        with ThreadPoolExecutor(24) as ex:
+            obs = list(ex.map(one, jobs))
+        dead = [i for i, s in enumerate(servers) if not s.alive()]
+    finally:
+        for s in servers:
+            s.stop()
+    for i, s in enumerate(servers):
+        rep = s.sanitizer_report()
+        if rep or i in dead:
+            ctx.violation("crash:e2e-conn:" + (rep or "")[:60],
+                          "server crashed / sanitizer report while serving request pipelines (config %s)" % confs[i]["name"],
+                          {"property": ctx.pid, "kind": "sanitizer-or-crash", "correspondence": "e2e-conn",
+                           "conf": confs[i]["name"], "stderr": (rep or s.logs())[-4000:]}, found=False)
+            return
+    ndis = nor = 0
+    by_case = collections.defaultdict(list)
+    LONE_CR = ("outcome depends on TCP segmentation: the CRLF of an empty line before a keep-alive request, cut "
+               "between CR and LF, is answered 400 + close (uncut or cut elsewhere: skipped)")
+    for job, ob in zip(jobs, obs):
+        k, ci, kind, segs, gap = job
+        data = allc[k][1]
+        items, phase, skip = expects[k]
+        ctx.evaluations += 1
+        ctx.keys["conn:%s:%s:%s" % (confs[ci]["name"], kind, sig_of(ob))] += 1
+        ctx.dist["conn:seg:" + kind] += 1
+        rep = {"property": ctx.pid, "correspondence": "e2e-conn", "input": lines[k], "conf": ci,
+               "conf_name": confs[ci]["name"], "seg_lens": [len(x) for x in segs],
+               "segmentation": kind, "gap": gap, "impl_obs": sig_of(ob), "model_obs": mo[k][:600]}
+        v = conn_oracle(confs[ci], data, ob)
+        if v:
+            nor += 1
+            ctx.violation("oracle:e2e-conn:" + re.sub(r"[0-9]+", "N", v)[:70], v,
+                          dict(rep, kind="property-oracle", oracle_verdict=v), found=True)
+            continue
+        lone = lone_cr_cut(data, segs, items)
+        by_case[k].append((kind, ob, segs, gap, lone))
+        if skip:
+            ctx.dist["conn:skipped-ipv6-literal-host"] += 1
+            continue
+        d = conn_compare(confs[ci], items, phase, ob)
+        if d and lone:
+            nor += 1
+            ctx.violation("oracle:e2e-conn:segmentation:lone-CR-before-keep-alive-request", LONE_CR,
+                          dict(rep, kind="property-oracle", oracle_verdict=LONE_CR, detail=d), found=True)
+        elif d:
+            ndis += 1
+            ctx.violation("corr:e2e-conn:" + re.sub(r"[0-9]+", "N", d)[:50],
+                          "model/implementation correspondence e2e-conn broken: " + d,
+                          dict(rep, kind="correspondence", detail=d,
+                               oracle_verdict="accepted by the reference framer oracle"), found=False)
+    # oracle: the outcome must not depend on the segmentation.  Not compared where the status of a rejection
+    # legitimately depends on what is buffered (head starting with a control byte: 400 or the parser's status;
+    # chunked bodies under request streaming: 411 from mod_cgi)
+    for k, lst in by_case.items():
+        ci = allc[k][0]
+        items = expects[k][0]
+        if any(it["kind"] == "rej" and (it.get("alt") or (confs[ci]["stream"] and it.get("ck"))) for it in items) or \
+                (confs[ci]["stream"] and any(it["kind"] == "req" and it["framing"] == "ck" for it in items)):
+            continue
+        ref = None
+        for kind, ob, segs, gap, lone in lst:
+            key = (tuple((s, None if e is None else (e["M"], e["CL"], e["B"])) for s, e in ob["resps"]), ob["closed"])
+            if ref is None:
+                ref = (key, kind, ob)
+            elif key != ref[0]:
+                nor += 1
+                v = LONE_CR if lone else "outcome depends on TCP segmentation (%s vs %s)" % (ref[1], kind)
+                ctx.violation("oracle:e2e-conn:segmentation" + (":lone-CR-before-keep-alive-request" if lone else ""), v,
+                              {"property": ctx.pid, "kind": "property-oracle", "correspondence": "e2e-conn",
+                               "input": lines[k], "conf": ci, "conf_name": confs[ci]["name"],
+                               "seg_lens": [len(x) for x in segs], "segmentation": kind,
+                               "gap": gap, "impl_obs": sig_of(ob), "other_obs": sig_of(ref[2]),
+                               "oracle_verdict": v}, found=True)
+                break
+    for i in range(0, len(jobs), max(1, len(jobs) // 4)):
+        ctx.sample({"stream": "e2e-conn", "conf": confs[jobs[i][1]]["name"], "segmentation": jobs[i][2],
+                    "input": lines[jobs[i][0]][:300], "impl": sig_of(obs[i])})
+    ctx.streams.append({"name": "e2e-conn", "cases": len(jobs), "pipelines": len(allc), "disagreements": ndis,
+                        "oracle_hits": nor, "wall_s": round(time.time() - t0, 2)})
+
+
 def run(ctx):
     ex1, err = C.build_harness("h_request")
     if ex1 is None:
@@ -363,16 +1222,71 @@ def run(ctx):
     ctx.dist["req:skipped-ipv6-literal-host"] = len(req) - len(keep)
     ctx.differential("request-head(h_request)", [ex1], "h1", keep, oracle, classify)
     ctx.differential("chunked-body(h_h1body)", [ex2], "h1", gen_chunked(ctx), oracle, classify)
+    run_conn(ctx)
     ctx.rule = ("request heads from a grammar (75% valid) with single-byte corruptions, every single-byte "
                 "corruption of 5 base requests, limit cases; chunked streams with all segmentations of short "
-                "ones; distinct = (stream, parseopts, status/framing/version/keep-alive class) tuples")
+                "ones; end-to-end: pipelines of 1-6 well-formed / broken messages (+ sentinel) against the real "
+                "server under 7-10 configurations, each under one-segment / bytewise / random / CR|LF / boundary "
+                "segmentations, single-byte corruption sweep of two base pipelines; distinct = (stream, "
+                "parseopts or configuration, segmentation, status/framing/version/keep-alive or response-sequence "
+                "class) tuples")
     ctx.assumptions += ["IPv6-literal Host values under host-normalize are skipped (inet_pton not modelled)",
                         "trailer sections longer than max-request-field-size are excluded (the C discards "
-                        "per read buffer there, with keep-alive off)"]
+                        "per read buffer there, with keep-alive off)",
+                        "e2e tolerances: a head beginning with a byte < 0x20 may be answered 400 or with the "
+                        "parser's status (depends on how much of the head is buffered; both reject + close); "
+                        "mod_cgi answers 411 + close to a chunked body under server.stream-request-body 1/2 unless "
+                        "the whole body arrived with the head; 1xx interim responses are ignored; the terminating "
+                        "blank line of a head may be a bare LF in strict mode"]
+
+
+def replay_conn(ctx, rep):
+    from .. import e2e
+    bd, err = e2e.build_server()
+    confs = conn_confs(ctx)
+    ctx.tier = "thorough"
+    confs = conn_confs(ctx)
+    cf = confs[rep["conf"]]
+    line = rep["input"]
+    data = C.unhx(line.split(" ")[-1])
+    segs, o = [], 0
+    for ln in rep.get("seg_lens") or [len(data)]:
+        segs.append(data[o:o + ln])
+        o += ln
+    mo, _, _ = C.run_model("h1", [line])
+    items, phase, skip = model_expect(mo[0])
+    srv = e2e.Server(bd, cf["text"], modules=("mod_cgi",))
+    for pth, content in STATIC.items():
+        open(srv.docroot + pth, "wb").write(content)
+    open(srv.docroot + "/echo.pl", "w").write(ECHO_PL)
+    head_flags = head_flags_of(data, cf["strict"])
+    outs = []
+    with srv:
+        for sg, gap in ((segs, rep.get("gap", 0.003)), ([data], 0.0)):
+            buf, closed = conn_exchange(srv.port, sg, gap, phase != "closed", len(items), head_flags[0])
+            outs.append(observe(buf, closed, head_flags))
+    print("config:", cf["name"])
+    print("stream:", data)
+    print("model :", mo[0][:1000])
+    rc = 0
+    for name, ob in zip(("recorded segmentation", "one segment"), outs):
+        v = conn_oracle(cf, data, ob)
+        d = None if skip else conn_compare(cf, items, phase, ob)
+        print("impl (%s):" % name, sig_of(ob), "| oracle:", v, "| vs model:", d)
+        if v or d:
+            rc = 1
+    if sig_of(outs[0]) != sig_of(outs[1]):
+        print("oracle: outcome depends on TCP segmentation")
+        rc = 1
+    if rc:
+        print("VIOLATION property=%s replay=(replayed)" % ctx.pid)
+    return rc
 
 
 def replay_line(ctx, rep):
     line = rep["input"]
+    if line.startswith("conn"):
+        return replay_conn(ctx, rep)
     name = "h_request" if line.startswith("req") else "h_h1body"
     exe, err = C.build_harness(name)
     o, rc, e = C.run_lines([exe], [line])
